@@ -57,6 +57,7 @@ type sqCall struct {
 }
 
 type sqRun struct {
+	nGets, nHits, nExpiredResident int64 // C16: reads made / answered from the cache / that met an expired resident entry
 	c       sqCase
 	x       *verifkit.Ctx
 	s       *Store[int, int]
@@ -267,7 +268,7 @@ func (r *sqRun) close() {
 	r.s.Close()
 }
 
-func execSeq(c sqCase, x *verifkit.Ctx, c03, c06 bool) (fail *verifkit.Failure) {
+func execSeq(c sqCase, x *verifkit.Ctx, c03, c06 bool, stats ...bool) (fail *verifkit.Failure) {
 	r := &sqRun{c: c, x: x, writes: map[int]*sqWrite{}, model: map[int]*sqModel{}, cls: map[string]bool{}, costOf: map[int]int64{}}
 	defer func() {
 		if rec := recover(); rec != nil {
@@ -425,7 +426,7 @@ func execSeq(c sqCase, x *verifkit.Ctx, c03, c06 bool) (fail *verifkit.Failure) 
 			if r.stalled && !r.bufferRoom() {
 				break
 			}
-			got, hit := r.s.Get(st.K)
+			got, hit := r.cget(st.K)
 			if hit {
 				if got != v {
 					return r.failf("set/read-other-value", "Get(%d) right after Set returned %d, not %d", st.K, got, v)
@@ -475,7 +476,7 @@ func execSeq(c sqCase, x *verifkit.Ctx, c03, c06 bool) (fail *verifkit.Failure) 
 				r.wait()
 				lenBefore, sizeBefore = r.s.Len(), r.s.EstimatedSize()
 			}
-			v, err := r.ls.Get(context.Background(), st.K)
+			v, err := r.clget(st.K)
 			if err != nil {
 				return r.failf("lget/error", "loading Get(%d) failed: %v", st.K, err)
 			}
@@ -523,7 +524,7 @@ func execSeq(c sqCase, x *verifkit.Ctx, c03, c06 bool) (fail *verifkit.Failure) 
 			if r.stalled && !r.bufferRoom() {
 				continue
 			}
-			v, ok := r.s.Get(st.K)
+			v, ok := r.cget(st.K)
 			if ok {
 				if f := r.judgeRead("Get", st.K, v, at); f != nil && c03 {
 					return f
@@ -541,7 +542,7 @@ func execSeq(c sqCase, x *verifkit.Ctx, c03, c06 bool) (fail *verifkit.Failure) 
 				delete(r.model, st.K)
 			}
 			if c06 && !(r.stalled && !r.bufferRoom()) {
-				if v, ok := r.s.Get(st.K); ok {
+				if v, ok := r.cget(st.K); ok {
 					return r.failf("delete/still-readable", "Get(%d) after Delete returned %d", st.K, v)
 				}
 			}
@@ -615,7 +616,7 @@ func execSeq(c sqCase, x *verifkit.Ctx, c03, c06 bool) (fail *verifkit.Failure) 
 		syncReports()
 		at := r.now()
 		for _, k := range verifkit.SortedKeys(r.model) {
-			v, ok := r.s.Get(k)
+			v, ok := r.cget(k)
 			if f := r.judgeModelRead(k, v, ok, at); f != nil {
 				return f
 			}
@@ -630,6 +631,19 @@ func execSeq(c sqCase, x *verifkit.Ctx, c03, c06 bool) (fail *verifkit.Failure) 
 			}
 		}
 	}
+	if len(stats) > 0 && stats[0] {
+		// C16 (sequential tier): one client, so the counters are exact
+		st := r.s.Stats()
+		if int64(st.Hits()+st.Misses()) != r.nGets {
+			return r.failf("stats/sum", "Hits %d + Misses %d != %d Get calls made", st.Hits(), st.Misses(), r.nGets)
+		}
+		if int64(st.Hits()) != r.nHits {
+			return r.failf("stats/hits", "Hits %d != %d Gets answered from the cache (Misses %d, Gets %d, of which %d met an expired entry that was still resident)", st.Hits(), r.nHits, st.Misses(), r.nGets, r.nExpiredResident)
+		}
+		if r.nExpiredResident > 0 {
+			x.NonTrivial()
+		}
+	}
 	for k := range r.cls {
 		x.Class(k)
 	}
@@ -642,11 +656,42 @@ func execSeq(c sqCase, x *verifkit.Ctx, c03, c06 bool) (fail *verifkit.Failure) 
 	return nil
 }
 
+
+// cget / clget: counted reads (C16 sequential tier)
+func (r *sqRun) noteRead(k int) {
+	r.nGets++
+	if !r.stalled {
+		if e := r.mapGet(k); e != nil && e.expire.Load() != 0 && e.expire.Load() <= r.s.timerwheel.clock.NowNanoCached() {
+			r.nExpiredResident++
+			r.cls["get-of-expired-resident-entry"] = true
+		}
+	}
+}
+
+func (r *sqRun) cget(k int) (int, bool) {
+	r.noteRead(k)
+	v, ok := r.s.Get(k)
+	if ok {
+		r.nHits++
+	}
+	return v, ok
+}
+
+func (r *sqRun) clget(k int) (int, error) {
+	r.noteRead(k)
+	calls := r.loaderCalls
+	v, err := r.ls.Get(context.Background(), k)
+	if err == nil && r.loaderCalls == calls {
+		r.nHits++
+	}
+	return v, err
+}
+
 func (r *sqRun) getNoDrain(k int) (int, bool) {
 	if r.stalled && !r.bufferRoom() {
 		return 0, false
 	}
-	return r.s.Get(k)
+	return r.cget(k)
 }
 
 // judgeModelRead: C06 (3)/(4) — in no-pressure mode a live, unexpired key must hit with the model value.
@@ -832,5 +877,57 @@ func TestVerifC06Seq(t *testing.T) {
 		Exec:        func(c sqCase, x *verifkit.Ctx) *verifkit.Failure { return execSeq(c, x, false, true) },
 		Rule:        "C06: rapid draws MaxSize in {1,2,5,10,50}, doorkeeper, loading, a no-pressure/pressure mode and up to 40 steps of Set/SetWithTTL (cost classes 1, MaxSize, MaxSize+1, 5*MaxSize, 1..MaxSize; in a third of the cases the store has a cost function and half of the writes/loads pass cost 0 so that it supplies the cost) / Get / loading Get with scripted loader cost+TTL / Delete / advance / forced tick / Wait; non-trivial = a key was written after its earlier value expired, or TTL and non-TTL writes were mixed on one key, or an oversized cost went through Set or the loader",
 		Assumptions: append([]string{"no-pressure mode: the executor skips a write that would push the cost of all entries not yet reported EXPIRED/EVICTED above MaxSize (conservative reading of 'live keys')"}, sqAssumptions...),
+	})
+}
+
+// C16 (sequential tier): the C03 step generator with one client, where the counters are exact;
+// TTLs, advances to deadline boundaries and forced ticks make Gets meet entries that have
+// expired but are still resident.
+func genC16Seq(t *rapid.T) sqCase {
+	c := genC03(t)
+	var steps []sqStep
+	for _, st := range c.Steps {
+		steps = append(steps, st)
+		if st.Op == "adv" && st.Anchor == "deadline" && st.Off >= 0 && rapid.IntRange(0, 3).Draw(t, "readExpired") != 0 {
+			// the cached clock passes the deadline on a tick; the wheel reclaims the entry only when its
+			// 2^30 ns slot boundary is crossed, so reads in between meet an expired resident entry
+			steps = append(steps, sqStep{Op: "tick"})
+			for n := rapid.IntRange(1, 3).Draw(t, "reads"); n > 0; n-- {
+				if c.Loading && rapid.Bool().Draw(t, "viaLoader") {
+					steps = append(steps, sqStep{Op: "lget", K: st.K, Cost: 1, TTL: genSqTTL(t)})
+				} else {
+					steps = append(steps, sqStep{Op: "get", K: st.K})
+				}
+			}
+		}
+	}
+	// probes: a short TTL, time moved to/past the deadline inside the same wheel slot, a tick, reads
+	for n := rapid.IntRange(0, 3).Draw(t, "probes"); n > 0; n-- {
+		k := rapid.IntRange(0, c.Keys-1).Draw(t, "probeKey")
+		probe := []sqStep{
+			{Op: "set", K: k, Cost: 1, TTL: rapid.Int64Range(1, 5e8).Draw(t, "probeTTL")},
+			{Op: "adv", Anchor: "deadline", K: k, Off: rapid.SampledFrom([]int64{0, 1, 1000, 1e8}).Draw(t, "probeOff")},
+			{Op: "tick"},
+		}
+		for m := rapid.IntRange(1, 3).Draw(t, "probeReads"); m > 0; m-- {
+			if c.Loading && rapid.Bool().Draw(t, "probeViaLoader") {
+				probe = append(probe, sqStep{Op: "lget", K: k, Cost: 1, TTL: genSqTTL(t)})
+			} else {
+				probe = append(probe, sqStep{Op: "get", K: k})
+			}
+		}
+		pos := rapid.IntRange(0, len(steps)).Draw(t, "probePos")
+		steps = append(steps[:pos:pos], append(probe, steps[pos:]...)...)
+	}
+	c.Steps = steps
+	return c
+}
+
+func TestVerifC16Seq(t *testing.T) {
+	verifkit.Run(t, verifkit.Spec[sqCase]{
+		ID: "C16", Gen: genC16Seq,
+		Exec:        func(c sqCase, x *verifkit.Ctx) *verifkit.Failure { return execSeq(c, x, false, false, true) },
+		Rule:        "C16 (sequential tier): the C03 step generator (TTL classes, advances to deadline boundaries, forced ticks, stalls; plain and loading stores; an advance to or past a deadline is mostly followed by a tick and reads of that key) with one client, for whom the counters are exact: Hits+Misses == Get calls made and Hits == Gets answered from the cache; non-trivial = some Get met an entry that had expired but was still resident",
+		Assumptions: sqAssumptions,
 	})
 }
